@@ -62,7 +62,9 @@ func mirrorExec(c *Ctx, op string) {
 		}
 		os.MkdirAll(dir, 0755)
 		p := storedWarePath(kind, dir, id)
-		os.MkdirAll(filepath.Dir(p), 0755)
+		if cd != "lacking" {
+			os.MkdirAll(filepath.Dir(p), 0755) // a lacking CA warehouse has no prefix directories for this ware
+		}
 		switch cd {
 		case "lacking":
 			pickToks = append(pickToks, scheme+":lacking")
